@@ -94,7 +94,8 @@ impl Cors {
         let origin = boxed_origin.unwrap();
         let origin_value = format!("{}", origin.value);
 
-        let is_valid_origin = allow_origins.contains(&origin_value);
+        let is_valid_origin = origin_value.len() > 0
+            && allow_origins.split(",").any(|allowed_origin| allowed_origin.trim() == origin_value);
         if !is_valid_origin {
             return Ok(headers)
         }
@@ -165,7 +166,8 @@ impl Cors {
         let origin = boxed_origin.unwrap();
         let origin_value = format!("{}", origin.value);
 
-        let is_valid_origin = allow_origins.contains(&origin_value);
+        let is_valid_origin = origin_value.len() > 0
+            && allow_origins.split(",").any(|allowed_origin| allowed_origin.trim() == origin_value);
         if !is_valid_origin {
             return Ok(headers)
         }
